@@ -70,6 +70,7 @@ class ProximalAverage(Functional):
             if alpha_sum != 1.0:
                 alpha_list = [alpha / alpha_sum for alpha in alpha_list]
             self.alpha_list = alpha_list
+        super().__init__()
 
     def __repr__(self):
         return (
